@@ -467,6 +467,31 @@ func (w *world) simulate(choices []int) {
 		}()
 	}
 	wantCancel := cfg.Fault.Kind == "cancel" || cfg.Fault.Kind == "both"
+	// bystanders: other goroutines of the application evaluate Score (a pure function of its argument, as far as any
+	// caller can tell) while the Mine call is running; where in the schedule is the strategy's choice. Each result is
+	// compared with the reference afterwards, and in the race flavours nothing orders a bystander with the workers or
+	// with the other bystander, so state that Score shares with Mine or with itself is reported as the race it is.
+	bysCh := make(chan bysRes, 4)
+	for b := 0; b < cfg.ScoreBystanders && b < 2; b++ {
+		who := Bystander - b
+		n := kernel.Mix(cfg.Strat.Seed, 0xb157a, uint64(b))
+		if b == 0 && cfg.Stub != nil && len(cfg.Stub.Specials) > 0 {
+			n = cfg.Stub.Specials[len(cfg.Stub.Specials)-1].Nonce
+		}
+		msg := ref.Msg(cfg.data(), n)
+		version := cfg.Version
+		go func() {
+			kernel.Yield("bystander.score", who)
+			r := bysRes{nonce: n}
+			if version == 1 {
+				r.f = pow1.Score(msg)
+			} else {
+				r.u = pow2.Score(msg)
+			}
+			kernel.Hidden(func() { bysCh <- r })
+		}()
+		w.probes["score_evaluated_by_another_goroutine_during_mine"] = 1
+	}
 
 	graceLeft := -1 // steps left under the run's strategy after the cancellation; -1: not started
 	fair := false   // fair (round-robin) phase
@@ -764,6 +789,7 @@ func (w *world) simulate(choices []int) {
 	for _, c := range cancels {
 		c()
 	}
+	w.judgeBystanders(st, bysCh)
 	w.res.Steps = len(k.Trace)
 	w.res.Switches = k.Switches
 	w.res.TraceHash = fmt.Sprintf("%016x", k.TraceHash())
@@ -981,6 +1007,55 @@ func (w *world) judge(st *stub) {
 		}
 	}
 	w.judgeNonce(st)
+}
+
+type bysRes struct {
+	nonce uint64
+	f     float64
+	u     uint64
+}
+
+// judgeBystanders compares what the bystander goroutines got from Score with the reference.
+func (w *world) judgeBystanders(st *stub, ch chan bysRes) {
+	cfg := w.cfg
+	L := cfg.msgLen()
+	sig := map[string]any{"version": cfg.Version, "hash": cfg.Hash}
+	for {
+		var r bysRes
+		got := false
+		kernel.Hidden(func() {
+			select {
+			case r = <-ch:
+				got = true
+			default:
+			}
+		})
+		if !got || w.res.Class != "" {
+			return
+		}
+		var trits []int8
+		if st != nil {
+			trits = st.Trits(r.nonce)
+		} else {
+			trits = ref.PowHash(ref.Msg(cfg.data(), r.nonce))
+		}
+		if cfg.Version == 1 {
+			z := ref.TrailingZeros(trits)
+			want := ref.V1ScoreFloat(z, L)
+			tol := uint64(0)
+			if z > 33 {
+				tol = 16
+			}
+			if ref.Ulps(r.f, want) > tol {
+				w.violate("score-mismatch", fmt.Sprintf("pow.Score(data||%d), evaluated by another goroutine while Mine was running, returned %v; the hash has %d trailing zero trits, reference 3^%d/%d = %v", r.nonce, r.f, z, z, L, want), sig)
+			}
+			continue
+		}
+		d := ref.Difficulty(trits)
+		if want := ref.V2ScoreFromDifficulty(d, L); r.u != want {
+			w.violate("score-mismatch", fmt.Sprintf("v2.Score(data||%d), evaluated by another goroutine while Mine was running, returned %d; reference min(floor(d/len), 2^64-1) = %d", r.nonce, r.u, want), sig)
+		}
+	}
 }
 
 // scoreProbes (stub-hash runs): the repository's Score, which sees the crafted hashes through its hash hook,
